@@ -411,7 +411,10 @@ pub fn geometry(out: &str) -> Option<BTreeMap<String, (String, Vec<(String, Stri
                     continue;
                 }
                 if name == "svg" && owner.is_empty() {
-                    // root extent is C08's business; only its content is compared
+                    // what the root extent should BE is C08's business; that it is the same
+                    // under every sibling order is this property's
+                    let g: Vec<(String, String)> = attrs.iter().filter(|(k, _)| ["viewBox", "width", "height"].contains(&k.as_str())).cloned().collect();
+                    map.insert("#<root>".to_string(), (name.clone(), g));
                     visit(children, "", map);
                     continue;
                 }
@@ -553,10 +556,51 @@ impl Engine for C10 {
                 nodes.push(NodeSpec { id, kind, xml, deps });
             }
         }
+        // one scenario in five ends with a clip path as a sibling of its own: a <clipPath>, a
+        // group holding a group clipped by it (the clip region is smaller than the content),
+        // and an element placed against the OUTER group - no other node refers to the three
+        if w.chance(1, 5) {
+            let base = nodes.len();
+            let (cx, cy, cw, ch) = (n(&mut w, -10, 20), n(&mut w, -10, 20), n(&mut w, 3, 12), n(&mut w, 3, 12));
+            let loc = *w.pick(LOCS);
+            let dir = *w.pick(&["h", "H", "v", "V"]);
+            let anchor = nodes[w.usize(base)].id.clone();
+            let clip_rect = if w.chance(1, 2) {
+                format!("<rect xy=\"{cx} {cy}\" wh=\"{cw} {ch}\"/>")
+            } else {
+                // the clip region itself is placed against another node
+                format!("<rect xy=\"#{anchor}@{loc}\" wh=\"{cw} {ch}\"/>")
+            };
+            let clip_deps: Vec<usize> = if clip_rect.contains('#') { vec![nodes.iter().position(|x| x.id == anchor).unwrap()] } else { vec![] };
+            nodes.push(NodeSpec {
+                id: format!("cp{base}"),
+                kind: "aux-clippath".into(),
+                xml: format!("<clipPath id=\"cp{base}\">{clip_rect}</clipPath>"),
+                deps: clip_deps,
+            });
+            nodes.push(NodeSpec {
+                id: format!("n{}", base + 1),
+                kind: "rel-group-of-clipped-group".into(),
+                xml: format!(
+                    "<g id=\"n{}\"><g clip-path=\"url(#cp{base})\"><rect xy=\"{} {}\" wh=\"90 70\"/></g></g>",
+                    base + 1,
+                    cx - 5,
+                    cy - 5
+                ),
+                deps: vec![base],
+            });
+            nodes.push(NodeSpec {
+                id: format!("n{}", base + 2),
+                kind: "rel-dir-wh".into(),
+                xml: format!("<rect id=\"n{}\" xy=\"#n{}|{dir} 2\" wh=\"3 4\"/>", base + 2, base + 1),
+                deps: vec![base + 1],
+            });
+        }
+        let nn = nodes.len();
         let mut unsat = None;
         if index % 5 == 4 {
             // unsatisfiable variants
-            match w.below(5) {
+            match w.below(6) {
                 0 => {
                     // unknown id
                     let i = nn - 1;
@@ -608,6 +652,18 @@ impl Engine for C10 {
                         deps: vec![a],
                     };
                     unsat = Some("cycle-3".to_string());
+                }
+                5 => {
+                    // a group clipped by a path that does not exist
+                    let i = nn - 1;
+                    let id = nodes[i].id.clone();
+                    nodes[i] = NodeSpec {
+                        id: id.clone(),
+                        kind: "clip-unknown".into(),
+                        xml: format!("<g id=\"{id}\"><g clip-path=\"url(#zz{})\"><rect xy=\"1 2\" wh=\"9 8\"/></g></g>", w.below(3)),
+                        deps: vec![],
+                    };
+                    unsat = Some("clip-unknown-id".to_string());
                 }
                 3 => {
                     // self reference
@@ -896,7 +952,7 @@ impl Engine for C10 {
         vec![
             "generated nodes are self-contained (a '^' only ever names an element of its own node, which stays adjacent under every order; no random functions), so geometry may only depend on the reference graph",
             "numeric comparison with absolute tolerance 2e-3 (output is rounded to 3 decimals)",
-            "root viewBox/width/height are not compared (that is C08, not applicable)",
+            "the root viewBox/width/height are compared between sibling orders, not against a reference of their own (what they should be is C08, not applicable)",
         ]
     }
 }
